@@ -5,8 +5,9 @@
 (*                                                                          *)
 (* Observation shaped: nothing in here knows how image.go works.  The       *)
 (* vocabulary is what an outside observer has:                              *)
-(*   S  the raw SOURCE store, walked with encoding/json + crypto/sha256     *)
-(*      (objects digest -> sha256 of the bytes, edges parent -> child with  *)
+(*   S  the raw SOURCE store, walked with encoding/json + crypto/sha256/512 *)
+(*      (objects digest -> sha256 of the bytes + the hash named by the      *)
+(*      digest's algorithm, edges parent -> child with                      *)
 (*      role config | layer | entry and position, the exported top digest,  *)
 (*      the tag it is exported under, whether the top is a plain image);    *)
 (*   T  the ARCHIVE written by ImageExport, parsed with archive/tar: entry  *)
@@ -43,8 +44,9 @@ Closure(E, top) == Reach(E, {top})
 \* digests of the objects of a store (set of [d, sha])
 Digs(objs) == {o.d : o \in objs}
 ShaOf(objs, d) == (CHOOSE o \in objs : o.d = d).sha
-\* an object is sound when its name is the sha256 of its bytes (all digests used are sha256)
-Sound(o) == o.d = "sha256:" \o o.sha
+\* an object [d, sha, a, h] (name, sha256 of the bytes, algorithm of the name, hash of the bytes computed
+\* with that algorithm) is sound when its name is that hash
+Sound(o) == o.d = o.a \o ":" \o o.h
 
 (* ---- O1: the archive is a well formed OCI layout ----------------------- *)
 (* S = [objs, edges, top, tag, single]   T = [names, types, alg, hex, calc, sha,
@@ -59,13 +61,15 @@ Role(S, p, r) == {e \in S.edges : e.p = p /\ e.role = r}
 LayerSeq(S, p) == LET L == Role(S, p, "layer")
                   IN [i \in 1..Cardinality(L) |-> (CHOOSE e \in L : e.i = i).c]
 
+\* entry i holds the content named d
+Holds(T, i, d) == d = "sha256:" \o T.sha[i] \/ (T.hex[i] # "" /\ d = T.alg[i] \o ":" \o T.calc[i])
 DockerOK(S, T) ==
   /\ T.dockN = 1
   /\ \E c \in Role(S, S.top, "config") :
-        \E i \in EntryOf(T, T.dcfg) : "sha256:" \o T.sha[i] = c.c
+        \E i \in EntryOf(T, T.dcfg) : Holds(T, i, c.c)
   /\ Len(T.dlayers) = Cardinality(Role(S, S.top, "layer"))
   /\ \A k \in 1..Len(T.dlayers) :
-        \E i \in EntryOf(T, T.dlayers[k]) : "sha256:" \o T.sha[i] = LayerSeq(S, S.top)[k]
+        \E i \in EntryOf(T, T.dlayers[k]) : Holds(T, i, LayerSeq(S, S.top)[k])
   /\ Len(T.dtags) >= 1
   /\ S.tag # "" => \A k \in 1..Len(T.dtags) : T.dtags[k] = S.tag
 
